@@ -24,7 +24,7 @@ EXTENDS Naturals, Integers, Sequences, FiniteSets, TLC
 
 CONSTANTS
   MaxNet,   \* state constraint: datagrams in flight (exploration bound, see NetBound)
-  Chans,    \* channel -> [sid, ordered, maxRtx]   (maxRtx = -1: reliable)
+  Chans,    \* channel -> [sid, ordered, maxRtx, life]   (maxRtx = -1: not retransmit-limited; life: lifetime-limited)
   Msgs,     \* sequence of [ch, frags]; frags = fragment sizes (1200 except the last)
   MaxDrop, MaxDup, MaxT3,   \* fault budgets before Heal
   CntCap,   \* cap of the per-chunk transmission counter
@@ -57,7 +57,7 @@ BuildChunks(i, acc, sseqs) ==
            n == Len(m.frags)
            new == [k \in 1..n |-> [msg |-> i, ch |-> m.ch, sid |-> c.sid, sseq |-> ss,
                                    b |-> (k = 1), e |-> (k = n), u |-> ~c.ordered,
-                                   size |-> m.frags[k], maxRtx |-> c.maxRtx]]
+                                   size |-> m.frags[k], maxRtx |-> c.maxRtx, life |-> c.life]]
        IN BuildChunks(i + 1, acc \o new,
                       IF c.ordered THEN [sseqs EXCEPT ![c.sid] = @ + 1] ELSE sseqs)
 
@@ -93,7 +93,7 @@ MaybeAbandon(s, i) ==
       e == q[i]
       c == CT[e.tsn]
   IN IF e.aband THEN <<s, TRUE>>
-     ELSE IF ~(c.maxRtx >= 0 /\ e.cnt > c.maxRtx) THEN <<s, FALSE>>
+     ELSE IF ~((c.maxRtx >= 0 /\ e.cnt > c.maxRtx) \/ (c.life /\ c.msg <= s.expired)) THEN <<s, FALSE>>
      ELSE
        LET loS == {j \in 1..i : CT[q[j].tsn].b}
            lo == IF loS = {} THEN 1 ELSE SetMax(loS)
@@ -335,7 +335,7 @@ Init ==
   /\ snd = [next |-> 1, dcq |-> <<>>, outq |-> <<>>, sentq |-> <<>>, flight |-> 0,
             cwnd |-> 3 * MTU, ssthresh |-> 1048576, pba |-> 0, frExit |-> 0, frTx |-> FALSE,
             lastSacked |-> 0, adv |-> 0, fwd |-> NoFwd, fwdPending |-> FALSE, fwdStreams |-> {},
-            t3 |-> FALSE]
+            t3 |-> FALSE, expired |-> 0]
   /\ rcv = [last |-> 0, mis |-> {}, streams |-> [sd \in Sids |-> [re |-> <<>>, seq |-> 0]]]
   /\ net = {}
   /\ sentH = [c \in DOMAIN Chans |-> <<>>]
@@ -399,6 +399,15 @@ T3Fire ==
   /\ act' = [op |-> "t3"]
   /\ UNCHANGED <<rcv, sentH, dlvH, badH, nDrop, nDup, healed>>
 
+\* the wall clock passes the lifetime of every message flushed to SCTP so far (maxPacketLifeTime);
+\* abandonment itself happens at the next strike or T3 expiry (_maybe_abandon reads the clock)
+Expire ==
+  /\ \E c \in DOMAIN Chans : Chans[c].life
+  /\ snd.expired < snd.next - 1 - Len(snd.dcq)
+  /\ snd' = [snd EXCEPT !.expired = snd.next - 1 - Len(snd.dcq)]   \* the expiry is stamped at flush time
+  /\ act' = [op |-> "expire"]
+  /\ UNCHANGED <<rcv, net, sentH, dlvH, badH, nDrop, nDup, nT3, healed>>
+
 Heal ==
   /\ ~healed /\ healed' = TRUE
   /\ act' = [op |-> "heal"]
@@ -412,6 +421,7 @@ Next ==
   \/ ApiSend
   \/ \E p \in net : Deliver(p) \/ Duplicate(p) \/ Drop(p)
   \/ (T3FireHealedOK /\ T3Fire)
+  \/ Expire
   \/ Heal
 
 Spec == Init /\ [][Next]_vars
@@ -423,7 +433,7 @@ FairSpec == Spec /\ WF_vars(\E p \in net : Deliver(p)) /\ WF_vars(T3FireHealedOK
 IsPrefixOf(s, t) == Len(s) <= Len(t) /\ \A i \in 1..Len(s) : s[i] = t[i]
 NoDup(s) == \A i, j \in 1..Len(s) : i # j => s[i] # s[j]
 SeqSet(s) == {s[i] : i \in 1..Len(s)}
-Reliable(c) == Chans[c].maxRtx < 0
+Reliable(c) == Chans[c].maxRtx < 0 /\ ~Chans[c].life
 Increasing(s) == \A i, j \in 1..Len(s) : i < j => s[i] < s[j]
 
 \* C01: reliable channels - prefix (ordered) / duplicate-free subset (unordered), intact
